@@ -514,7 +514,13 @@ pub fn run_c15(ctx: &Ctx, keys: &[TKey], k: usize, thread_counts: &[usize], roun
 
 	// --- history part: three times back to back, then again after unrelated calls
 	let mut rng = Rng::derive(ctx.seed, "c15-history", proc_id);
-	for c in &tab {
+	// each process walks the table in its own order: output that depends on what was generated
+	// before (a cache filled by the first caller, a counter) then differs between processes
+	let mut order: Vec<usize> = (0..tab.len()).collect();
+	if proc_id > 0 {
+		rng.shuffle(&mut order);
+	}
+	for c in order.iter().map(|i| &tab[*i]) {
 		if let Some(r) = &ctx.replay {
 			if r.index != c.idx as u64 {
 				continue;
